@@ -140,6 +140,15 @@ void SerialAssembleAction::onStop()
     AssembleAction::onStop();
 }
 
+void SerialAssembleAction::onFinished(bool is_succ, const Reason &why, const Trace &trace)
+{
+    //! 有可能不是子动作自然结束产生的finish（如超时），此时要停止还在运行的子动作
+    stopCurrAction();
+    child_finish_func_ = nullptr;
+
+    AssembleAction::onFinished(is_succ, why, trace);
+}
+
 void SerialAssembleAction::onReset()
 {
     curr_action_ = nullptr;
